@@ -106,7 +106,8 @@ func (g *gen) brokenValue() string {
 	case 6:
 		ins = string([]byte{byte(1 + g.r.Intn(8))})
 	case 7:
-		ins = "\\" + string([]byte{byte(1 + g.r.Intn(8))})
+		// a quoted control character, white space, DEL or non-ASCII byte
+		ins = "\\" + string([]byte{[]byte("\x01\x02\x03\x04\x05\x06\x07\x08\t\n\v\f\r \x1f\x7f\x80\xff")[g.r.Intn(18)]})
 	case 8:
 		return g.r.Pick("*", "\\-", "**", "?", "??", "?*", "*?", "-", "", "\\")
 	case 9:
